@@ -418,3 +418,284 @@ package sod
 //@ loop 1 decreases len(in.Index) - rangeindex
 //@ modifies nothing
 //@ allocates Elem[*indexedField]
+
+// ---- cache / pending-write stores --------------------------------------------
+
+// reflection: assumed contract (deep copy), exercised by the bounded stand-in of C14
+//@ func CloneObject
+//@ serves C14 C01 C10
+//@ trusted "reflection-bodied (cloneValue): assumed contract, checked by the bounded stand-in"
+//@ requires o != nil
+//@ ensures out != nil && fresh(out) && out != o && out.content == o.content && out.uuid == o.uuid && dyntype(out) == dyntype(o)
+//@ modifies nothing
+//@ allocates Object.content, Object.uuid
+
+//@ func stype
+//@ serves C01 C18
+//@ trusted "reflect.TypeOf(i).String(): the name of the dynamic type (pointer stripped)"
+//@ ensures result == stypeOf(vtag(i))
+//@ pure
+
+//@ func (*objectMap).put
+//@ serves C01 C08 C09 C10 C14
+//@ requires [wf] wfMapObj(m) && o != nil
+//@ requires [C09 lock-free] HM == 0
+//@ ensures [C14 put.clone] has(m.m, o.uuid) && fresh(m.m[o.uuid]) && m.m[o.uuid] != o && m.m[o.uuid].content == o.content && m.m[o.uuid].uuid == o.uuid && dyntype(m.m[o.uuid]) == dyntype(o)
+//@ ensures [C01 put.others] m.m == old(m.m) && forallk(u, string, imp(u != o.uuid, has(m.m, u) == old(has(m.m, u)) && m.m[u] == old(m.m[u])))
+//@ ensures [C01 put.wf] wfMapObj(m)
+//@ modifies MapDom[string,Object]@m.m, MapVal[string,Object]@m.m, MapCard[string,Object]@m.m
+//@ allocates Object.content, Object.uuid
+
+//@ func (*objectMap).get
+//@ serves C01 C08 C09 C10 C14
+//@ requires [wf] wfMapObj(m)
+//@ requires [C09 lock-free] HM == 0
+//@ ensures [C01 get.found] ok == has(m.m, uuid)
+//@ ensures [C14 get.clone] imp(ok, o != nil && fresh(o) && o != m.m[uuid] && o.content == m.m[uuid].content && o.uuid == uuid && dyntype(o) == dyntype(m.m[uuid]))
+//@ modifies nothing
+//@ allocates Object.content, Object.uuid
+
+//@ func (*objectMap).has
+//@ serves C01 C08 C09 C10
+//@ requires [wf] wfMapObj(m)
+//@ requires [C09 lock-free] HM == 0
+//@ ensures [C01 has.iff] ok == has(m.m, uuid)
+//@ modifies nothing
+
+//@ func (*objectMap).delete
+//@ serves C01 C08 C09 C10
+//@ requires [wf] wfMapObj(m)
+//@ requires [C08 locked] HM == 2
+//@ ensures [C01 mdel] m.m == old(m.m) && forallk(u, string, has(m.m, u) == (old(has(m.m, u)) && u != uuid) && imp(u != uuid, m.m[u] == old(m.m[u])))
+//@ ensures [C01 mdel.wf] wfMapObj(m)
+//@ modifies MapDom[string,Object]@m.m, MapCard[string,Object]@m.m
+
+//@ func (*objectMap).lockDelete
+//@ serves C01 C08 C09 C10
+//@ requires [wf] wfMapObj(m)
+//@ requires [C09 lock-free] HM == 0
+//@ ensures [C01 mdel] m.m == old(m.m) && forallk(u, string, has(m.m, u) == (old(has(m.m, u)) && u != uuid) && imp(u != uuid, m.m[u] == old(m.m[u])))
+//@ ensures [C01 mdel.wf] wfMapObj(m)
+//@ modifies MapDom[string,Object]@m.m, MapCard[string,Object]@m.m
+
+//@ func (*objectMap).len
+//@ serves C08 C09 C10
+//@ requires [wf] wfMapObj(m)
+//@ requires [C09 lock-free] HM == 0
+//@ ensures [C10 len] result == len(m.m)
+//@ modifies nothing
+
+//@ func newObjectMap
+//@ serves C01 C10
+//@ ensures [C01 newmap] result != nil && fresh(result) && result.m != nil && fresh(result.m) && forallk(u, string, !has(result.m, u)) && wfMapObj(result)
+//@ modifies nothing
+//@ allocates objectMap.m, objectMap.RWMutex, MapDom[string,Object], MapCard[string,Object]
+
+//@ func (*objectStore).put
+//@ serves C01 C06 C08 C09 C10 C14
+//@ requires [wf] wfStore(s) && o != nil
+//@ requires [C09 lock-free] HS == 0 && HM == 0
+//@ let k string := stypeOf(dyntype(o))
+//@ ensures [C01 sput.has] has(s.m, k) && has(s.m[k].m, o.uuid)
+//@ ensures [C14 sput.clone] fresh(s.m[k].m[o.uuid]) && s.m[k].m[o.uuid] != o && s.m[k].m[o.uuid].content == o.content && dyntype(s.m[k].m[o.uuid]) == dyntype(o)
+//@ ensures [C01 sput.other-types] s.m == old(s.m) && forallk(t, string, imp(t != k, has(s.m, t) == old(has(s.m, t)) && s.m[t] == old(s.m[t]))) && imp(old(has(s.m, k)), s.m[k] == old(s.m[k]))
+//@ ensures [C01 sput.other-objects] forallk(t, string, imp(old(has(s.m, t)), s.m[t].m == old(s.m[t].m) && forallk(u, string, imp(t != k || u != o.uuid, has(s.m[t].m, u) == old(has(s.m[t].m, u)) && s.m[t].m[u] == old(s.m[t].m[u])))))
+//@ ensures [C01 sput.new-type] imp(!old(has(s.m, k)), fresh(s.m[k]) && forallk(u, string, imp(u != o.uuid, !has(s.m[k].m, u))))
+//@ ensures [C01 sput.wf] wfStore(s)
+//@ modifies MapDom[string,*objectMap]@s.m, MapVal[string,*objectMap]@s.m, MapCard[string,*objectMap]@s.m, MapDom[string,Object]@ite(has(s.m, k), s.m[k].m, 0), MapVal[string,Object]@ite(has(s.m, k), s.m[k].m, 0), MapCard[string,Object]@ite(has(s.m, k), s.m[k].m, 0)
+//@ allocates Object.content, Object.uuid, objectMap.m, objectMap.RWMutex, MapDom[string,Object], MapVal[string,Object], MapCard[string,Object]
+
+//@ func (*objectStore).get
+//@ serves C01 C08 C09 C10 C14
+//@ requires [wf] wfStore(s) && in != nil
+//@ requires [C09 lock-free] HS == 0 && HM == 0
+//@ let k string := stypeOf(dyntype(in))
+//@ ensures [C01 sget.found] ok == (has(s.m, k) && has(s.m[k].m, in.uuid))
+//@ ensures [C14 sget.clone] imp(ok, out != nil && fresh(out) && out != in && out.content == s.m[k].m[in.uuid].content && out.uuid == in.uuid && dyntype(out) == dyntype(s.m[k].m[in.uuid]))
+//@ modifies nothing
+//@ allocates Object.content, Object.uuid
+
+//@ func (*objectStore).has
+//@ serves C01 C08 C09 C10
+//@ requires [wf] wfStore(s) && o != nil
+//@ requires [C09 lock-free] HS == 0 && HM == 0
+//@ ensures [C01 shas.iff] ok == (has(s.m, stypeOf(dyntype(o))) && has(s.m[stypeOf(dyntype(o))].m, o.uuid))
+//@ modifies nothing
+
+//@ func (*objectStore).delete
+//@ serves C01 C08 C09 C10
+//@ requires [wf] wfStore(s) && o != nil
+//@ requires [C09 lock-free] HS == 0 && HM == 0
+//@ let k string := stypeOf(dyntype(o))
+//@ ensures [C01 sdel.types] s.m == old(s.m) && forallk(t, string, has(s.m, t) == old(has(s.m, t)) && s.m[t] == old(s.m[t]))
+//@ ensures [C01 sdel.objects] forallk(t, string, imp(has(s.m, t), s.m[t].m == old(s.m[t].m) && forallk(u, string, has(s.m[t].m, u) == (old(has(s.m[t].m, u)) && !(t == k && u == o.uuid)) && imp(!(t == k && u == o.uuid), s.m[t].m[u] == old(s.m[t].m[u])))))
+//@ ensures [C01 sdel.wf] wfStore(s)
+//@ modifies MapDom[string,Object]@ite(has(s.m, k), s.m[k].m, 0), MapCard[string,Object]@ite(has(s.m, k), s.m[k].m, 0)
+
+//@ func (*objectStore).count
+//@ serves C08 C09 C10
+//@ requires [wf] wfStore(s) && of != nil
+//@ requires [C09 lock-free] HS == 0 && HM == 0
+//@ ensures [C10 count] n == ite(has(s.m, stypeOf(dyntype(of))), len(s.m[stypeOf(dyntype(of))].m), 0)
+//@ modifies nothing
+
+//@ func (*objectStore).key
+//@ serves C10
+//@ requires o != nil
+//@ ensures result == stypeOf(dyntype(o))
+//@ pure
+
+// ---- schema settings and file naming ------------------------------------------
+
+//@ func (*Schema).asyncWritesEnabled
+//@ serves C01 C06 C10 C12 C17 C19
+//@ requires s != nil
+//@ ensures [C10 async-on] result == asyncOn(s)
+//@ pure
+
+//@ func (*Schema).mustCache
+//@ serves C01 C06 C10 C12 C19
+//@ requires s != nil
+//@ ensures [C10 cache-on] result == cacheOn(s)
+//@ pure
+
+//@ func (*Schema).filenameFromUUID
+//@ serves C01 C12 C18
+//@ requires s != nil
+//@ ensures [C18 filename] result == uuid + s.Extension + ite(s.Compress, ".gz", "")
+//@ pure
+
+//@ func (*Schema).filename
+//@ serves C01 C12 C18
+//@ requires s != nil && o != nil
+//@ ensures [C18 filename] result == o.uuid + s.Extension + ite(s.Compress, ".gz", "")
+//@ pure
+
+//@ func (*Schema).isUUIDIndexed
+//@ serves C01 C11
+//@ requires s != nil && s.ObjectIndex != nil && s.ObjectIndex.uuids != nil
+//@ ensures [C11 indexed] result == has(s.ObjectIndex.uuids, uuid)
+//@ pure
+
+//@ func (*DB).itemname
+//@ serves C01 C12 C18
+//@ trusted "directory name of a type: stype or its snake case, chosen by the global LowercaseNames (assumed constant during a run)"
+//@ requires o != nil
+//@ ensures result == itemOf(dyntype(o))
+//@ pure
+
+//@ func (*DB).oDir
+//@ serves C01 C12 C18
+//@ theory paths
+//@ requires db != nil && of != nil
+//@ ensures [C18 odir] result == cdirf(db.root, itemOf(dyntype(of)))
+//@ pure
+
+//@ func (*DB).oPath
+//@ serves C01 C12 C18
+//@ theory paths
+//@ requires db != nil && of != nil && s != nil
+//@ ensures [C18 opath] path == opathf(cdirf(db.root, itemOf(dyntype(of))), of.uuid, s.Extension, s.Compress)
+//@ pure
+
+// ---- file helpers: contracts over the ghost file system. Bodies use os/io/gzip/json; their
+// ---- contracts are assumed here (trusted) and listed in the evidence.
+
+//@ func unmarshalJsonFile
+//@ serves C01 C04 C05 C11 C12 C19
+//@ trusted "os.Open + ioutil.ReadAll (+ gzip by suffix) + json.Unmarshal: reads the file, decodes it into the destination"
+//@ ensures [fs.read-ok] imp(err == nil, FSk[path] == 1 && asobj(vpay(i)).content == FSc[path])
+//@ ensures [fs.read-absent] imp(FSk[path] == 0, err != nil && isNotExist(err) && !isStorage(err))
+//@ ensures [fs.read-garbage] imp(FSk[path] == 2, err != nil && !isNotExist(err) && !isStorage(err))
+//@ ensures [fs.read-fault] imp(FSk[path] == 1, err == nil || (isStorage(err) && !isNotExist(err)))
+//@ modifies Object.content@vpay(i)
+
+//@ func writeReader
+//@ serves C01 C04 C05 C06 C10 C12 C18
+//@ trusted "writes the reader's content to a temporary file (.tmp-<name>) and renames it over the target: the target holds its old or its new content; the temporary name is never read"
+//@ let p string := ite(compress && !hasSuffix(path, ".gz"), path + ".gz", path)
+//@ ensures [fs.write-ok] imp(err == nil, FSk == upd(old(FSk), p, 1) && FSc == upd(old(FSc), p, rdc(r)))
+//@ ensures [fs.write-fail] imp(err != nil, FSk == old(FSk) && FSc == old(FSc) && isStorage(err))
+//@ modifies Ghost.FSk, Ghost.FSc
+
+//@ func isFileAndExist
+//@ serves C01 C05 C11 C19
+//@ trusted "os.Stat: whether the path is a regular file (Stat failing for another reason than absence is a storage fault, see known findings)"
+//@ ensures result == (FSk[path] == 1 || FSk[path] == 2)
+//@ pure
+
+// ---- database: private helpers (called with the handle lock held) -----------------
+
+// Loading a schema from disk: the decoders and Schema.control are verified separately; what the
+// loaded index denotes (agreement with the object files, K6) is an assumption about the directory
+// (written by a crash-free history of this code): see DESIGN.md C04/C05.
+//@ func (*DB).loadSchema
+//@ serves C01 C04 C08 C09 C10 C11 C17 C19
+//@ trusted "assumed: a directory produced by a crash-free history loads into a coherent schema (C04 round trip)"
+//@ requires [wf] wfDB(db) && of != nil && !has(db.schemas, stypeOf(dyntype(of)))
+//@ requires [C08 locked] H >= 1 && SL == 2
+//@ requires [C09 lock-free] HS == 0 && HM == 0
+//@ ensures [load.cached] (err == nil || errIs(err, ErrIndexCorrupted)) == has(db.schemas, stypeOf(dyntype(of)))
+//@ ensures [load.schema] imp(err == nil || errIs(err, ErrIndexCorrupted), s != nil && fresh(s) && db.schemas[stypeOf(dyntype(of))] == s && s.ObjectIndex.otype == dyntype(of) && s.coherent == (err == nil))
+//@ ensures [C10 load.flusher] imp((err == nil || errIs(err, ErrIndexCorrupted)) && asyncOn(s), s.AsyncWrites.routineStarted)
+//@ ensures [load.others] db.schemas == old(db.schemas) && forallk(t, string, imp(t != stypeOf(dyntype(of)), has(db.schemas, t) == old(has(db.schemas, t)) && db.schemas[t] == old(db.schemas[t])))
+//@ ensures [load.wf] wfDB(db)
+//@ ensures [C17 load.readonly] FSk == old(FSk) && FSc == old(FSc)
+//@ modifies MapDom[string,*Schema]@db.schemas, MapVal[string,*Schema]@db.schemas, MapCard[string,*Schema]@db.schemas
+//@ allocates Schema.db, Schema.object, Schema.transformers, Schema.Fields, Schema.Extension, Schema.Compress, Schema.Cache, Schema.AsyncWrites, Schema.ObjectIndex, Schema.coherent, Async.routineStarted, Async.Enable, Async.Threshold, Async.Timeout, objIndex.i, objIndex.uuids, objIndex.Fields, objIndex.ObjectIds, objIndex.otype, objIndex.ver, MapDom[string,uint64], MapVal[string,uint64], MapCard[string,uint64], MapDom[uint64,string], MapVal[uint64,string], MapCard[uint64,string], MapDom[string,*fieldIndex], MapVal[string,*fieldIndex], MapCard[string,*fieldIndex], fieldIndex.Name, fieldIndex.Cast, fieldIndex.Constraints, fieldIndex.Index, fieldIndex.objectIds, fieldIndex.nameSplit, fieldIndex.pos, MapDom[uint64,*indexedField], MapVal[uint64,*indexedField], MapCard[uint64,*indexedField], Elem[*indexedField], indexedField.Value, indexedField.ObjectId, Elem[string]
+
+//@ func (*DB).startAsyncWritesRoutine
+//@ serves C08 C09 C10 C17
+//@ requires [wf] db != nil && s != nil && imp(s.AsyncWrites != nil, allocated(s.AsyncWrites))
+//@ requires [C08 locked] H == 2 || (H >= 1 && SL == 2)
+//@ ensures [C10 flusher-started] imp(asyncOn(s), s.AsyncWrites.routineStarted)
+//@ modifies Async.routineStarted
+
+//@ func (*DB).schema
+//@ serves C01 C04 C06 C08 C09 C10 C11 C17 C19
+//@ requires [wf] wfDB(db) && of != nil
+//@ requires [C08 locked] H >= 1
+//@ requires [C09 lock-free] SL == 0 && HS == 0 && HM == 0
+//@ ensures [C01 schema.ok] imp(err == nil, s != nil && has(db.schemas, stypeOf(dyntype(of))) && db.schemas[stypeOf(dyntype(of))] == s && s.ObjectIndex.otype == dyntype(of))
+//@ ensures [C01 schema.known] imp(old(has(db.schemas, stypeOf(dyntype(of)))), err == nil && s == old(db.schemas[stypeOf(dyntype(of))]))
+//@ ensures [C01 schema.cached] has(db.schemas, stypeOf(dyntype(of))) == (old(has(db.schemas, stypeOf(dyntype(of)))) || err == nil || errIs(err, ErrIndexCorrupted))
+//@ ensures [C11 schema.coherent] imp(!old(has(db.schemas, stypeOf(dyntype(of)))) && has(db.schemas, stypeOf(dyntype(of))), db.schemas[stypeOf(dyntype(of))].coherent == (err == nil))
+//@ ensures [C10 schema.flusher] imp(err == nil && asyncOn(s), s.AsyncWrites.routineStarted)
+//@ ensures [C01 schema.others] db.schemas == old(db.schemas) && forallk(t, string, imp(t != stypeOf(dyntype(of)), has(db.schemas, t) == old(has(db.schemas, t)) && db.schemas[t] == old(db.schemas[t])))
+//@ ensures [C01 schema.wf] wfDB(db)
+//@ ensures [C17 schema.readonly] FSk == old(FSk) && FSc == old(FSc)
+//@ modifies MapDom[string,*Schema]@db.schemas, MapVal[string,*Schema]@db.schemas, MapCard[string,*Schema]@db.schemas, Async.routineStarted
+//@ allocates Schema.db, Schema.object, Schema.transformers, Schema.Fields, Schema.Extension, Schema.Compress, Schema.Cache, Schema.AsyncWrites, Schema.ObjectIndex, Schema.coherent, Async.routineStarted, Async.Enable, Async.Threshold, Async.Timeout, objIndex.i, objIndex.uuids, objIndex.Fields, objIndex.ObjectIds, objIndex.otype, objIndex.ver, MapDom[string,uint64], MapVal[string,uint64], MapCard[string,uint64], MapDom[uint64,string], MapVal[uint64,string], MapCard[uint64,string], MapDom[string,*fieldIndex], MapVal[string,*fieldIndex], MapCard[string,*fieldIndex], fieldIndex.Name, fieldIndex.Cast, fieldIndex.Constraints, fieldIndex.Index, fieldIndex.objectIds, fieldIndex.nameSplit, fieldIndex.pos, MapDom[uint64,*indexedField], MapVal[uint64,*indexedField], MapCard[uint64,*indexedField], Elem[*indexedField], indexedField.Value, indexedField.ObjectId, Elem[string]
+
+//@ func (*DB).exist
+//@ serves C01 C08 C09 C10 C12
+//@ requires [wf] wfDB(db) && o != nil
+//@ requires [C08 locked] H >= 1
+//@ requires [C09 lock-free] SL == 0 && HS == 0 && HM == 0
+//@ ghost s *Schema := s
+//@ ensures [C01 C12 exist.iff] imp(err == nil && s.coherent, ok == has(s.ObjectIndex.uuids, o.uuid))
+//@ ensures [C01 exist.schema] imp(err == nil, s != nil && has(db.schemas, stypeOf(dyntype(o))) && db.schemas[stypeOf(dyntype(o))] == s)
+//@ ensures [C01 exist.wf] wfDB(db)
+//@ ensures [C17 exist.readonly] FSk == old(FSk) && FSc == old(FSc)
+//@ ensures [C01 exist.others] db.schemas == old(db.schemas) && forallk(t, string, imp(t != stypeOf(dyntype(o)), has(db.schemas, t) == old(has(db.schemas, t)) && db.schemas[t] == old(db.schemas[t]))) && imp(old(has(db.schemas, stypeOf(dyntype(o)))), s == old(db.schemas[stypeOf(dyntype(o))]))
+//@ modifies MapDom[string,*Schema]@db.schemas, MapVal[string,*Schema]@db.schemas, MapCard[string,*Schema]@db.schemas, Async.routineStarted
+//@ allocates Schema.db, Schema.object, Schema.transformers, Schema.Fields, Schema.Extension, Schema.Compress, Schema.Cache, Schema.AsyncWrites, Schema.ObjectIndex, Schema.coherent, Async.routineStarted, Async.Enable, Async.Threshold, Async.Timeout, objIndex.i, objIndex.uuids, objIndex.Fields, objIndex.ObjectIds, objIndex.otype, objIndex.ver, MapDom[string,uint64], MapVal[string,uint64], MapCard[string,uint64], MapDom[uint64,string], MapVal[uint64,string], MapCard[uint64,string], MapDom[string,*fieldIndex], MapVal[string,*fieldIndex], MapCard[string,*fieldIndex], fieldIndex.Name, fieldIndex.Cast, fieldIndex.Constraints, fieldIndex.Index, fieldIndex.objectIds, fieldIndex.nameSplit, fieldIndex.pos, MapDom[uint64,*indexedField], MapVal[uint64,*indexedField], MapCard[uint64,*indexedField], Elem[*indexedField], indexedField.Value, indexedField.ObjectId, Elem[string]
+
+//@ func (*DB).get
+//@ serves C01 C08 C09 C10 C12 C14
+//@ requires [wf] wfDB(db) && in != nil
+//@ requires [C14 caller-owned] forallk(t, string, forallk(w, string, db.cache.m[t].m[w] != in && db.asyncw.m[t].m[w] != in))
+//@ requires [C08 locked] H >= 1
+//@ requires [C09 lock-free] SL == 0 && HS == 0 && HM == 0
+//@ let u string := in.uuid
+//@ let T string := stypeOf(dyntype(in))
+//@ ghost s *Schema := s
+//@ ensures [C01 get.schema] imp(err == nil, s != nil && has(db.schemas, T) && db.schemas[T] == s)
+//@ ensures [C01 get.stored] imp(has(db.schemas, T) && db.schemas[T].coherent && has(db.schemas[T].ObjectIndex.uuids, u), (err == nil && out != nil && out.uuid == u && out.content == value(db, db.schemas[T], u)) || isStorage(err))
+//@ ensures [C01 get.absent] imp(has(db.schemas, T) && db.schemas[T].coherent && !has(db.schemas[T].ObjectIndex.uuids, u), err != nil && !isStorage(err))
+//@ ensures [C14 get.isolated] imp(err == nil && cacheOn(db.schemas[T]) && old(has(db.schemas, T) && cached(db, db.schemas[T], u)), fresh(out) && out != in)
+//@ ensures [C01 get.wf] wfDB(db)
+//@ ensures [C01 get.readonly] FSk == old(FSk) && FSc == old(FSc) && forallk(t, string, has(db.asyncw.m, t) == old(has(db.asyncw.m, t)) && db.asyncw.m[t] == old(db.asyncw.m[t]) && imp(has(db.asyncw.m, t), forallk(w, string, has(db.asyncw.m[t].m, w) == old(has(db.asyncw.m[t].m, w)) && db.asyncw.m[t].m[w] == old(db.asyncw.m[t].m[w]))))
+//@ ensures [C01 get.others] db.schemas == old(db.schemas) && forallk(t, string, imp(t != T, has(db.schemas, t) == old(has(db.schemas, t)) && db.schemas[t] == old(db.schemas[t]))) && imp(old(has(db.schemas, T)), db.schemas[T] == old(db.schemas[T]))
+//@ modifies MapDom[string,*Schema]@db.schemas, MapVal[string,*Schema]@db.schemas, MapCard[string,*Schema]@db.schemas, Async.routineStarted, Object.content@in, MapDom[string,*objectMap]@db.cache.m, MapVal[string,*objectMap]@db.cache.m, MapCard[string,*objectMap]@db.cache.m, MapDom[string,Object], MapVal[string,Object], MapCard[string,Object]
+//@ allocates Object.content, Object.uuid, objectMap.m, objectMap.RWMutex, Schema.db, Schema.object, Schema.transformers, Schema.Fields, Schema.Extension, Schema.Compress, Schema.Cache, Schema.AsyncWrites, Schema.ObjectIndex, Schema.coherent, Async.routineStarted, Async.Enable, Async.Threshold, Async.Timeout, objIndex.i, objIndex.uuids, objIndex.Fields, objIndex.ObjectIds, objIndex.otype, objIndex.ver, MapDom[string,uint64], MapVal[string,uint64], MapCard[string,uint64], MapDom[uint64,string], MapVal[uint64,string], MapCard[uint64,string], MapDom[string,*fieldIndex], MapVal[string,*fieldIndex], MapCard[string,*fieldIndex], fieldIndex.Name, fieldIndex.Cast, fieldIndex.Constraints, fieldIndex.Index, fieldIndex.objectIds, fieldIndex.nameSplit, fieldIndex.pos, MapDom[uint64,*indexedField], MapVal[uint64,*indexedField], MapCard[uint64,*indexedField], Elem[*indexedField], indexedField.Value, indexedField.ObjectId, Elem[string]
